@@ -3,6 +3,8 @@
 package checks
 
 import (
+	"strconv"
+	"runtime"
 	"bufio"
 	"encoding/json"
 	"fmt"
@@ -108,7 +110,7 @@ type Ctx struct {
 // NewCtx creates the context; messages go to stdout.
 func NewCtx(prop, tier string, seed uint64, shard, nshards, start int, journal, tmp string) *Ctx {
 	IOTmpDir = tmp
-	return &Ctx{
+	c := &Ctx{
 		Prop: prop, Tier: tier, Seed: seed, Shard: shard, NShards: nshards, Start: start,
 		journalPath: journal, TmpDir: tmp,
 		out:         bufio.NewWriterSize(os.Stdout, 1<<16),
@@ -118,6 +120,8 @@ func NewCtx(prop, tier string, seed uint64, shard, nshards, start int, journal, 
 		sampleKinds: map[string]int{},
 		violSeen:    map[string]int{},
 	}
+	c.SetAdd("worker_process_numcpu", strconv.Itoa(runtime.NumCPU()))
+	return c
 }
 
 // Quick tells whether this is the quick tier.
